@@ -34,7 +34,11 @@ func main() {
 	fs := flag.NewFlagSet(os.Args[1], flag.ExitOnError)
 	seed := fs.Uint64("seed", 0, "seed")
 	n := fs.Int("n", 1000, "number of random histories")
+	pool := fs.String("pool", "", "generated parameter sets (GEN output of the model driver)")
 	_ = fs.Parse(os.Args[2:])
+	if *pool != "" {
+		loadPool(*pool)
+	}
 	defer out.Flush()
 	switch os.Args[1] {
 	case "corr":
@@ -104,6 +108,9 @@ func corr(seed uint64, n int) {
 			}
 		}
 	}
+	for _, h := range poolHistories() {
+		emit(&id, h)
+	}
 	g := &gen{r: hx.NewRng(seed)}
 	for i := 0; i < n; i++ {
 		emit(&id, g.history(true))
@@ -115,6 +122,36 @@ func corr(seed uint64, n int) {
 	for i := 0; i < n; i++ {
 		emit(&id, g2.history(false))
 	}
+}
+
+// poolHistories: every generated parameter set x every valid (sample entry name, includePS) combination
+func poolHistories() [][]*op {
+	hs := [][]*op{}
+	for i := range genAVC {
+		set := &genAVC[i]
+		for _, c := range []struct {
+			nm   string
+			incl bool
+		}{{"avc1", true}, {"avc3", true}, {"avc3", false}} {
+			hs = append(hs, []*op{{kind: 'A', ts: 90000, mt: "video", lang: "und"},
+				{kind: 'V', k: 0, name: c.nm, sps: set.sps, pps: set.pps, incl: c.incl, exp: set.exp}})
+		}
+	}
+	for i := range genHEVC {
+		set := &genHEVC[i]
+		for j, c := range []struct {
+			nm   string
+			incl bool
+		}{{"hvc1", true}, {"hev1", true}, {"hev1", false}} {
+			var sei [][]byte
+			if (i+j)%3 == 0 {
+				sei = [][]byte{unhex(hevcSEIPool[i%len(hevcSEIPool)])}
+			}
+			hs = append(hs, []*op{{kind: 'A', ts: 90000, mt: "video", lang: "und"},
+				{kind: 'H', k: 0, name: c.nm, vps: [][]byte{unhex(hevcVPSPool[i%len(hevcVPSPool)])}, sps: set.sps, pps: set.pps, sei: sei, incl: c.incl, exp: set.exp}})
+		}
+	}
+	return hs
 }
 
 // ------------------------------------------------------------------ search
@@ -305,85 +342,7 @@ func checkDescriptor(init *mp4.InitSegment, o *op, wit string) {
 	e := stsd.Children[len(stsd.Children)-1]
 	switch o.kind {
 	case 'V', 'H':
-		v, ok := e.(*mp4.VisualSampleEntryBox)
-		if !ok || v.Type() != o.name {
-			fail("SetAVC/HEVCDescriptor", "entry-type", wit, "sample entry has another type than requested")
-			return
-		}
-		var w, h uint64
-		if d, known := knownDims[hx.Hex(o.sps[0])]; known {
-			w, h = d[0], d[1]
-		} else if o.kind == 'V' {
-			_, w, h, _, _, _ = avcParse(o.sps[0])
-		} else {
-			_, w, h, _ = hevcParse(o.sps[0])
-		}
-		if uint64(v.Width) != w || uint64(v.Height) != h || uint64(t.Tkhd.Width) != w<<16 || uint64(t.Tkhd.Height) != h<<16 {
-			fail("SetAVC/HEVCDescriptor", "dimensions", wit, fmt.Sprintf("entry %dx%d tkhd %x x %x, SPS says %dx%d", v.Width, v.Height, t.Tkhd.Width, t.Tkhd.Height, w, h))
-		}
-		if o.kind == 'V' {
-			if v.AvcC == nil {
-				fail("SetAVCDescriptor", "no-avcC", wit, "no avcC")
-				return
-			}
-			d := v.AvcC.DecConfRec
-			sps := o.sps[0]
-			if d.AVCProfileIndication != sps[1] || d.ProfileCompatibility != sps[2] || d.AVCLevelIndication != sps[3] {
-				fail("SetAVCDescriptor", "profile-level", wit, "avcC profile/compatibility/level differ from the SPS bytes")
-			}
-			wantS, wantP := o.sps, o.pps
-			if !o.incl {
-				wantS, wantP = nil, nil
-			}
-			if !eqNalus(d.SPSnalus, wantS) || !eqNalus(d.PPSnalus, wantP) {
-				fail("SetAVCDescriptor", "parameter-sets", wit, "avcC parameter sets differ from those supplied")
-			}
-		} else {
-			if v.HvcC == nil {
-				fail("SetHEVCDescriptor", "no-hvcC", wit, "no hvcC")
-				return
-			}
-			d := v.HvcC.DecConfRec
-			want := []struct {
-				ty    int
-				nalus [][]byte
-			}{}
-			if o.incl {
-				want = append(want, struct {
-					ty    int
-					nalus [][]byte
-				}{32, o.vps}, struct {
-					ty    int
-					nalus [][]byte
-				}{33, o.sps}, struct {
-					ty    int
-					nalus [][]byte
-				}{34, o.pps})
-			}
-			if len(o.sei) > 0 {
-				want = append(want, struct {
-					ty    int
-					nalus [][]byte
-				}{39, o.sei})
-			}
-			okA := len(d.NaluArrays) == len(want)
-			for i := 0; okA && i < len(want); i++ {
-				a := &d.NaluArrays[i]
-				compl := byte(0)
-				if o.name == "hvc1" {
-					compl = 1
-				}
-				okA = int(a.NaluType()) == want[i].ty && eqNalus(a.Nalus, want[i].nalus) && a.Complete() == compl
-			}
-			if !okA {
-				fail("SetHEVCDescriptor", "parameter-sets", wit, "hvcC NALU arrays differ from the parameter sets supplied")
-			}
-			// general_level_idc is the 13th byte of profile_tier_level: NALU header 2 + 1 + 12 -> sps[14] when no
-			// emulation prevention byte precedes it (checked: none of the pool SPS has one there)
-			if d.LengthSizeMinusOne != 3 || d.ConfigurationVersion != 1 {
-				fail("SetHEVCDescriptor", "config-constants", wit, "hvcC version / length size")
-			}
-		}
+		checkConfig(t, e, o, false, true, wit)
 	case 'C':
 		a, ok := e.(*mp4.AudioSampleEntryBox)
 		if !ok || a.Type() != "mp4a" || a.Esds == nil {
@@ -486,7 +445,7 @@ func sameSamples(got []mp4.FullSample, want []mp4.FullSample) bool {
 }
 
 // checkRoundTrip: encode, decode to an equal tree, fragmented init, fragments decode against it.
-func checkRoundTrip(init *mp4.InitSegment, adds []*op, wit string) {
+func checkRoundTrip(init *mp4.InitSegment, adds []*op, descs [][]*op, wit string) {
 	var buf bytes.Buffer
 	var err error
 	if p := hx.Try(func() { err = init.Encode(&buf) }); p != "" || err != nil {
@@ -546,6 +505,25 @@ func checkRoundTrip(init *mp4.InitSegment, adds []*op, wit string) {
 		fail("DecodeFile", "reencode-differs", wit, "re-encoding the decoded init gives other bytes")
 	}
 	checkStructure(f.Init, adds, wit, "-decoded")
+	// every sample entry of the decoded init carries the configuration supplied by the call that created it
+	for i, t := range f.Init.Moov.Traks {
+		es := t.Mdia.Minf.Stbl.Stsd.Children
+		if i >= len(descs) || len(es) != len(descs[i]) {
+			fail("DecodeFile", "entry-count-decoded", wit, "number of decoded sample entries differs from the number of successful descriptor calls")
+			continue
+		}
+		lastVisual := -1
+		for j := range es {
+			if k := descs[i][j].kind; k == 'V' || k == 'H' {
+				lastVisual = j
+			}
+		}
+		for j, e := range es {
+			if o := descs[i][j]; o.kind == 'V' || o.kind == 'H' {
+				checkConfig(t, e, o, true, j == lastVisual, wit)
+			}
+		}
+	}
 	canonAvcC = true
 	sDec, sBuilt := stateString(f.Init, ""), stateString(init, "")
 	canonAvcC = false
@@ -644,6 +622,7 @@ func evalHistory(ops []*op) {
 	wit := opsString(ops)
 	init := mp4.CreateEmptyInit()
 	adds := []*op{}
+	descs := [][]*op{} // per track: the successful descriptor calls, in order
 	for _, o := range ops {
 		oc := apply(init, o)
 		if oc == 'p' {
@@ -652,15 +631,17 @@ func evalHistory(ops []*op) {
 		}
 		if o.kind == 'A' {
 			adds = append(adds, o)
+			descs = append(descs, nil)
 			checkStructure(init, adds, wit, "")
 		} else if oc == 'e' {
 			fail("Set...Descriptor", "error-on-valid-arguments", wit, "op "+o.String()+" returns an error")
 		} else {
 			checkDescriptor(init, o, wit)
+			descs[o.k] = append(descs[o.k], o)
 		}
 	}
 	checkStructure(init, adds, wit, "")
-	checkRoundTrip(init, adds, wit)
+	checkRoundTrip(init, adds, descs, wit)
 }
 
 func search(seed uint64, n int) {
@@ -702,6 +683,9 @@ func search(seed uint64, n int) {
 					{kind: 'H', k: 0, name: c.nm, vps: g.nalus(hevcVPSPool, true), sps: [][]byte{unhex(sp)}, pps: g.nalus(hevcPPSPool, true), sei: sei, incl: c.incl}})
 			}
 		}
+	}
+	for _, h := range poolHistories() {
+		evalHistory(h)
 	}
 	for i := 0; i < n; i++ {
 		evalHistory(g.history(true))
